@@ -27,7 +27,7 @@ type c08Case struct {
 	Sched   []int  `json:"sched"`    // transit chunk schedule
 	Bufs    []int  `json:"bufs"`     // reader buffer sizes, cycled
 	BufferN int    `json:"buffer_n"` // packet channel size
-	// Corrupt: "", zero, over, huge, truncate, oversize-packet
+	// Corrupt: "", zero, zero-insert (a zero prefix inserted between two intact frames), over, huge, truncate, oversize-packet
 	Corrupt   string `json:"corrupt"`
 	CorruptAt int    `json:"corrupt_at"`
 	EOFData   bool   `json:"eof_with_data"`
@@ -41,7 +41,7 @@ func genC08(t *rapid.T) c08Case {
 		Max:     rapid.SampledFrom([]int{8, 16, 64, 257, 1024, 4096}).Draw(t, "max"),
 		Writers: rapid.SampledFrom([]int{1, 1, 1, 2, 3}).Draw(t, "writers"),
 		BufferN: rapid.SampledFrom([]int{0, 1, 2, 10}).Draw(t, "buffern"),
-		Corrupt: rapid.SampledFrom([]string{"", "", "", "zero", "over", "huge", "truncate", "oversize-packet"}).Draw(t, "corrupt"),
+		Corrupt: rapid.SampledFrom([]string{"", "", "", "zero", "zero-insert", "over", "huge", "truncate", "oversize-packet"}).Draw(t, "corrupt"),
 		EOFData: rapid.Bool().Draw(t, "eofdata"),
 	}
 	n := rapid.IntRange(1, 40).Draw(t, "n")
@@ -156,6 +156,12 @@ func corruptStream(stream []byte, frames [][]byte, c c08Case, zeroIsLegit bool) 
 			return stream, len(frames), false
 		}
 		binary.LittleEndian.PutUint32(out[off:], 0)
+	case "zero-insert":
+		if zeroIsLegit {
+			return stream, len(frames), false
+		}
+		// the frames after the inserted prefix stay well-formed: a reader that skips the bad prefix would deliver them
+		out = append(append(append([]byte{}, stream[:off]...), 0, 0, 0, 0), stream[off:]...)
 	case "over":
 		binary.LittleEndian.PutUint32(out[off:], uint32(c.Max+1))
 	case "huge":
@@ -391,7 +397,7 @@ func checkC08Session(c c08Case, o *vstat.Outcome) *vstat.Violation {
 var specC08 = vstat.Spec[c08Case]{
 	Property: "C08",
 	Rule: "1-40 packets (sizes 1, 2, max-1, max, random; max in {8..4096}) written through rwc.PacketConn (1-3 concurrent writers) or stream_packet.Session (protobuf messages incl. empty), " +
-		"the captured byte stream optionally corrupted (length prefix 0 / max+1 / 2^32-1, truncation, over-limit packet) and replayed through a scripted reader with a generated chunk schedule (1-byte reads .. whole stream, optional data+EOF) into a second PacketConn/Session read with generated buffer sizes; " +
+		"the captured byte stream optionally corrupted (length prefix 0 in place of a frame's prefix or inserted between intact frames / max+1 / 2^32-1, truncation, over-limit packet) and replayed through a scripted reader with a generated chunk schedule (1-byte reads .. whole stream, optional data+EOF) into a second PacketConn/Session read with generated buffer sizes; " +
 		"oracle: sequence model - every intact packet exactly once, in order, same bytes and boundaries; short buffers reported; corrupted prefix => error and no later packet; non-trivial = >=2 packets with header-splitting chunks, any corruption, or a max-size packet",
 	Assumptions: []string{"the underlying stream's Write is atomic per call (as net.Pipe and QUIC streams are)", "for Session a zero length prefix is the legitimate encoding of an empty message"},
 	Gen:         genC08,
